@@ -8,6 +8,7 @@ import WD.Proofs.Pipeline.FlatSpec
 import WD.Proofs.Pipeline.BurstFiles
 import WD.Proofs.Pipeline.BurstGrow
 import WD.Proofs.Pipeline.Paced
+import WD.Proofs.Pipeline.BurstMkRename
 /-
   `_partial`: the theorems quantify over all initial trees and all histories of valid operations, but in the
   regime "the stream drains after every operation" (`Sys.op`), plus bursts of FILE operations issued back to back and
@@ -179,5 +180,17 @@ theorem coverage_paced_partial (fs0 : FS) (hwf : fs0.WF) (full : Bool) (bs : Lis
     (hb : pacedOK (Sys.start fs0 true full) bs) : Covered ((Sys.start fs0 true full).runBursts bs).1 := by
   obtain ⟨inv, hs, hc, _, _⟩ := start_rec fs0 hwf full
   exact covered_of_inv (paced_run bs _ inv hs hc hb).1 _ rfl rfl rfl
+
+
+/-- coverage of a directory that was CREATED AND IMMEDIATELY RENAMED (`mkdir p; rename p q` in one batch): afterwards
+    every directory of the tree - the renamed one under its new name - is watched under its real current path -/
+theorem coverage_created_and_renamed_partial (fs0 : FS) (hwf : fs0.WF) (full : Bool) (pre : List Op) (p q : P)
+    (hv : allValid (Sys.start fs0 true full) pre = true) (hroot : Op.rmdir ["W"] ∉ pre)
+    (hb : mkRenameB ((Sys.start fs0 true full).run pre).1 [.mkdir p, .rename p q] = true) :
+    Covered (((Sys.start fs0 true full).run pre).1.burst [.mkdir p, .rename p q]).1 := by
+  obtain ⟨inv, hs, hc⟩ := after_history fs0 hwf full pre hv hroot
+  simp only [mkRenameB, Bool.and_eq_true, beq_iff_eq, decide_eq_true_eq, Bool.not_eq_true', bne_iff_ne, ne_eq] at hb
+  obtain ⟨⟨⟨⟨⟨⟨⟨_, a1⟩, a2⟩, a3⟩, a4⟩, a5⟩, a6⟩, a7⟩ := hb
+  exact covered_of_inv (burst_mkdir_rename _ p q inv hs hc a1 a2 a3 a4 a5 a6 a7).2.2.2.2 _ rfl rfl rfl
 
 end WD.C02
